@@ -59,7 +59,7 @@ func (g *c12gen) intn(lo, hi int) int { return rapid.IntRange(lo, hi).Draw(g.t, 
 func (g *c12gen) flip() bool          { return rapid.Bool().Draw(g.t, "b") }
 
 func (g *c12gen) payloadVar() *m.E {
-	return m.EName(rapid.SampledFrom([]string{"p0", "p1", "p2", "sh", "sj", "sa", "st", "sn", "bs", "pb", "ob", "on", "sh5"}).Draw(g.t, "pv"))
+	return m.EName(rapid.SampledFrom([]string{"p0", "p1", "p2", "sh", "sj", "sa", "st", "sn", "bs", "pb", "ob", "on", "sh5", "nl", "nf"}).Draw(g.t, "pv"))
 }
 
 func (g *c12gen) text() *m.N {
@@ -78,6 +78,13 @@ func (g *c12gen) payloadExpr(d int) *m.E {
 	case 4:
 		return m.EFilter("escape", g.payloadExpr(d-1))
 	case 5:
+		if g.intn(0, 2) == 0 {
+			// a strategy that is computed: a variable (which may name no
+			// escaper at all: the value is then left as it is, and escaped for
+			// the template's type like any other), a conditional, a concatenation
+			strat := []*m.E{m.EName("strat"), m.ECond(m.EName("flag"), m.EStr("html"), m.EStr("js")), m.EBin("~", m.EStr("ht"), m.EStr("ml")), m.ECond(m.EName("flag"), m.EName("strat"), m.EStr("css"))}[g.intn(0, 3)]
+			return m.EFilter("escape", g.payloadExpr(d-1), strat)
+		}
 		return m.EFilter("escape", g.payloadExpr(d-1), m.EStr(rapid.SampledFrom([]string{"html", "js", "css", "url", "html_attr"}).Draw(g.t, "et")))
 	case 6:
 		return m.EBin("~", g.payloadExpr(d-1), g.payloadExpr(d-1))
@@ -216,6 +223,10 @@ func c12Ctx(t *rapid.T) map[string]sb.V {
 		// sh5 is safe for html only; sw5 (never printed) is the same object
 		// marked for js as well: making it must not widen sh5
 		"sh5": {K: "safe", TS: []string{"html"}, E: []sb.V{str("<RAW5&>")}},
+		// numbers of defined types whose String method returns markup: what is
+		// printed is that text, not the number
+		"nl": {K: "named:hlevel", N: 3}, "nf": {K: "named:hratio", N: 0.5},
+		"strat": str(rapid.SampledFrom([]string{"html", "js", "css", "nope", "txt", "", "html_attr"}).Draw(t, "strat")),
 		"sw5": {K: "wrapof", S: "sh5", TS: []string{"js", "css"}},
 	}
 }
@@ -288,7 +299,7 @@ func init() {
 		ID:        "C12",
 		Level:     "exploration",
 		Technique: "property-based testing (rapid): differential between the Twig environment's automatic escaping and an explicit-escaping translation run on the core environment, plus an inert-language safety oracle",
-		Rule: "programs for twig.New over memory and string loaders: template names with extensions html, html.twig, js, js.twig, css, txt, none, .twig only, unknown (.xml, .tpl, .htm, dir.d/x) and inline sources with and without '.'; payloads with characters significant in HTML, JS, CSS and URLs carried by strings, Stringers and values marked safe for the same / another / several types (nested; one of them also re-marked for further types through a second wrapper around the same object); prints at top level, in if/for bodies, blocks, overriding and inherited blocks of other content types, included and embedded templates, set captures, filter sections, macro bodies, conditional branches, interpolations, concatenations, array/hash elements, through raw, escape, escape(type) and neutral filters. " +
+		Rule: "programs for twig.New over memory and string loaders: template names with extensions html, html.twig, js, js.twig, css, txt, none, .twig only, unknown (.xml, .tpl, .htm, dir.d/x) and inline sources with and without '.'; payloads with characters significant in HTML, JS, CSS and URLs carried by strings, Stringers (structs and defined integer / float types) and values marked safe for the same / another / several types (nested; one of them also re-marked for further types through a second wrapper around the same object); prints at top level, in if/for bodies, blocks, overriding and inherited blocks of other content types, included and embedded templates, set captures, filter sections, macro bodies, conditional branches, interpolations, concatenations, array/hash elements, through raw, escape, escape(type) - the type a literal, a variable that may name no escaper, a conditional or a concatenation - and neutral filters. " +
 			"Oracles: (E) the output equals that of the translated program in which every print is explicitly escaped for the defining template's content type as the statement prescribes (registered extension / txt -> none / otherwise html), raw and same-type safe values exempt, run on the core environment; (S) for programs of one content type, after removing the payloads deliberately routed through raw / same-type safe values the output lies in that type's inert language. " +
 			"Non-trivial: a payload contains a character special for the sink and the print is not at top level of an .html template; distinct by program and context. Context values also include types implementing Boolean and Stringer at once, Boolean only and Number only (also behind pointers); a foreign, reconfigured AutoEscapeExtension instance exists in the process; payloads of letters and digits beyond ASCII.",
 		Assumptions: []string{"the core executor and the escapers are checked by the other properties; this check decides selection of the escaper and the number of applications"},
